@@ -31,7 +31,7 @@ def shards(tier, seed):
     if tier == "quick":
         n_sh, n, budget = 8, 300, 40
     else:
-        n_sh, n, budget = 16, 1300, 300
+        n_sh, n, budget = 16, 15000, 300
     return [{"name": f"ns{i}", "threads": 1, "timeout": budget * 4 + 300,
              "params": {"seed": seed, "shard": i, "n": n, "budget_s": budget}}
             for i in range(n_sh)]
